@@ -372,6 +372,10 @@ fn run_tape_sub(
             let failed = Cell::new(false);
             let executed = Cell::new(0u64);
             let ctx_cell = std::cell::RefCell::new(&mut ctx);
+            // the case that ran just before the first failing one on this thread, and the first failure itself:
+            // needed when the failure depends on state the library carries from one call to the next
+            let prev_tape: std::cell::RefCell<Vec<u8>> = std::cell::RefCell::new(Vec::new());
+            let first_fail: std::cell::RefCell<Option<(Vec<u8>, Vec<u8>, Failure)>> = std::cell::RefCell::new(None);
             let res = runner.run(&vec(any::<u8>(), 0..=max_len), |tape| {
                 if !failed.get() && stop.load(Ordering::Relaxed) {
                     return Ok(());
@@ -382,8 +386,16 @@ fn run_tape_sub(
                     executed.set(executed.get() + 1);
                 }
                 match run_tape_case(f, sub, &tape, &mut c) {
-                    Ok(()) => Ok(()),
+                    Ok(()) => {
+                        if !failed.get() {
+                            *prev_tape.borrow_mut() = tape;
+                        }
+                        Ok(())
+                    }
                     Err(e) => {
+                        if !failed.get() {
+                            *first_fail.borrow_mut() = Some((tape.clone(), prev_tape.borrow().clone(), e.clone()));
+                        }
                         failed.set(true);
                         stop.store(true, Ordering::Relaxed);
                         Err(TestCaseError::fail(e.msg))
@@ -395,15 +407,35 @@ fn run_tape_sub(
                 Ok(()) => None,
                 Err(TestError::Fail(_, tape)) => {
                     ctx.counting = false;
-                    let failure = run_tape_case(f, sub, &tape, &mut ctx)
-                        .err()
-                        .unwrap_or_else(|| Failure::new("failure did not reproduce on the shrunk tape (flaky)"));
-                    Some(Violation {
-                        sub,
-                        replay: json!({"property": prop, "sub": sub, "kind": "tape", "tape_hex": hex(&tape),
-                                       "seed": seed, "thread": ti, "message": failure.msg.clone()}),
-                        failure,
-                    })
+                    match run_tape_case(f, sub, &tape, &mut ctx) {
+                        Err(failure) => Some(Violation {
+                            sub,
+                            replay: json!({"property": prop, "sub": sub, "kind": "tape", "tape_hex": hex(&tape),
+                                           "seed": seed, "thread": ti, "message": failure.msg.clone()}),
+                            failure,
+                        }),
+                        Ok(()) => {
+                            // The shrunk case passes when run on its own: the failure depends on what the library
+                            // was asked before (state kept between calls). Report the first failure as observed and
+                            // keep the preceding case of the same thread in the replay file.
+                            let (t1, t0, mut failure) = first_fail.borrow_mut().take().unwrap_or_else(|| {
+                                (tape.clone(), Vec::new(), Failure::new("failure did not reproduce on the shrunk tape"))
+                            });
+                            failure.msg = clip(format!(
+                                "{}\n [history-dependent: the same case passes when it is run first in a thread; it failed after other \
+                                 cases had been evaluated in the same thread, so the library's answer depends on earlier calls. \
+                                 The replay file runs the preceding case of that thread first.]",
+                                failure.msg
+                            ));
+                            Some(Violation {
+                                sub,
+                                replay: json!({"property": prop, "sub": sub, "kind": "tape", "tape_hex": hex(&t1),
+                                               "history_tapes_hex": [hex(&t0)], "seed": seed, "thread": ti,
+                                               "message": failure.msg.clone()}),
+                                failure,
+                            })
+                        }
+                    }
                 }
                 Err(TestError::Abort(r)) => Some(Violation {
                     sub,
@@ -540,6 +572,14 @@ pub fn replay_value(p: &Property, v: &Value, tier: Tier) -> Result<(), Failure> 
                 .and_then(|t| t.as_str())
                 .and_then(unhex)
                 .ok_or_else(|| Failure::panic("replay: bad tape_hex".into(), "src/engine".into()))?;
+            // cases that ran before the failing one in the same thread (history-dependent failures)
+            if let Some(hist) = v.get("history_tapes_hex").and_then(|h| h.as_array()) {
+                for h in hist {
+                    if let Some(ht) = h.as_str().and_then(unhex) {
+                        let _ = run_tape_case(*f, sub.name, &ht, &mut ctx);
+                    }
+                }
+            }
             run_tape_case(*f, sub.name, &tape, &mut ctx)
         }
         (Kind::Index { f, .. }, Some("index")) => {
